@@ -301,6 +301,11 @@ def is_valid_ip(ip: str) -> bool:
         # codec first, which maps e.g. "1.2.3.4\xad" or "\xb9.2.3.4" to a
         # numeric address although the string itself is not one.
         return False
+    if ":" in ip.partition("%")[2]:
+        # A zone id ("fe80::1%eth0") is an interface name or index.
+        # Linux ignores everything after a ":" in an interface name
+        # (alias labels), so "fe80::1%lo:<anything>" would be accepted.
+        return False
     try:
         res = socket.getaddrinfo(
             ip, 0, socket.AF_UNSPEC, socket.SOCK_STREAM, 0, socket.AI_NUMERICHOST
